@@ -292,6 +292,11 @@ func (fc *followerController) NewTerm(req *proto.NewTermRequest) (*proto.NewTerm
 	fc.status = proto.ServingStatus_FENCED
 	fc.closeStreamNoMutex(nil)
 
+	// Entries that were appended but are still waiting for their sync round are part
+	// of the log: make them durable (and visible to the reader) before reporting the head
+	if err := fc.wal.Sync(context.Background()); err != nil {
+		return nil, err
+	}
 	lastEntryId, err := getLastEntryIdInWal(fc.wal)
 	if err != nil {
 		fc.log.Warn(
